@@ -21,6 +21,7 @@ if [ -z "$V" ]; then OWN_COPY=$(mktemp -d /tmp/vcopy_XXXXXX); cp -a /verif/. $OW
 cd $V || exit 2
 rm -rf replays
 for c in "$@"; do
-  out=$(PABU_REPO=$WT VERIF_SEED=${VERIF_SEED:-3} ./check $c --tier quick 2>&1 | grep -v "depends on axioms" | grep -E "^(VIOLATION|C[0-9]+ tier|INFRA)" | head -3 | cut -c1-170 | tr '\n' ';')
+  out=$(PABU_REPO=$WT VERIF_SEED=${VERIF_SEED:-3} timeout -k 5 ${TRY_TIMEOUT:-900} ./check $c --tier quick 2>&1 | grep -v "depends on axioms" | grep -E "^(VIOLATION|C[0-9]+ tier|INFRA)" | head -3 | cut -c1-170 | tr '\n' ';')
+  [ -z "$out" ] && out="NO-VERDICT (timeout after ${TRY_TIMEOUT:-900}s or crash)"
   echo "check $c: $out"
 done
